@@ -72,7 +72,7 @@ Definition keep_bot (k : list value) (base : N) : list value :=
 Definition take_args (count : N) (k : list value) : list value * list value :=
   let n := N.of_nat (length k) in
   let m := N.min count n in
-  (repeat VVoid (N.to_nat (count - m)) ++ rev (firstn (N.to_nat m) k), skipn (N.to_nat m) k).
+  (repeat VVoid (N.to_nat (count - m)) ++ rev_append (firstn (N.to_nat m) k) [], skipn (N.to_nat m) k).   (* rev_append: linear-time reversal *)
 
 Fixpoint gl_get (g : list (N * value)) (i : N) : value :=
   match g with [] => VVoid | (j, v) :: r => if j =? i then v else gl_get r i end.
